@@ -587,6 +587,16 @@ func checkReadBack(ci int, cs *connState, p *DBPlan, rc *simkit.RunCtx) {
 						gReply, gRep = r.Seq, r
 					}
 				}
+				if g.Cancels > 0 {
+					// a cancel aimed at the get is answered with an error under the get's ID: only an ok reply can
+					// be attributed to the get itself
+					gRep = nil
+					for k := range c2.replies {
+						if r := &c2.replies[k]; r.Op == op2 && r.Type == "ok" {
+							gReply, gRep = r.Seq, r
+						}
+					}
+				}
 				if gRep == nil {
 					continue
 				}
